@@ -142,9 +142,10 @@ Proof. intros n l id. split; [apply trunc_objs_ids_below|apply trunc_keeps_earli
 Print Assumptions C12_truncation_is_earlier_part.
 
 (* ---------------------------------------------------------------- search order *)
-(* the candidates of one scope are the visible objects matching the path, in document order *)
+(* the candidates of one scope are the visible objects that are not disabled and match the path
+   (live_cand), in document order *)
 Theorem C12_nearest_candidates : forall stop path l,
-  stop <> 0 -> scan stop path l = Ok (filter (cand path) (visible stop l)).
+  stop <> 0 -> scan stop path l = Ok (filter (live_cand path) (visible stop l)).
 Proof. exact scan_visible. Qed.
 Print Assumptions C12_nearest_candidates.
 
@@ -152,17 +153,17 @@ Print Assumptions C12_nearest_candidates.
 Theorem C12_nearest_later_first : forall rec stop cur ups path l1 l2,
   stop <> 0 -> visible stop cur = l1 ++ l2 ->
   lex_here rec stop (cur :: ups) path =
-  match try_cands rec (cur :: ups) path (rev (filter (cand path) l2)) with
-  | Ok None => try_cands rec (cur :: ups) path (rev (filter (cand path) l1))
+  match try_cands rec (cur :: ups) path (rev (filter (live_cand path) l2)) with
+  | Ok None => try_cands rec (cur :: ups) path (rev (filter (live_cand path) l1))
   | r => r
   end.
 Proof. exact lex_here_later_first. Qed.
 Print Assumptions C12_nearest_later_first.
 
-(* ... in particular the LAST visible object named by the path wins *)
+(* ... in particular the LAST visible, not disabled object named by the path wins *)
 Theorem C12_nearest_last_wins : forall rec stop cur ups path l1 d l2,
   stop <> 0 -> visible stop cur = l1 ++ d :: l2 ->
-  onm d = path -> (forall o, In o l2 -> cand path o = false) ->
+  onm d = path -> odis (ohdr d) = false -> (forall o, In o l2 -> live_cand path o = false) ->
   lex_here rec stop (cur :: ups) path = Ok (Some (d, cur :: ups)).
 Proof. exact lex_here_last_wins. Qed.
 Print Assumptions C12_nearest_last_wins.
@@ -224,18 +225,34 @@ Theorem C12_syntax_error_line : forall w k t l,
 Proof. exact fragments_uerr. Qed.
 Print Assumptions C12_syntax_error_line.
 
-(* ---------------------------------------------------------------- where the faithful model departs from the property text *)
+(* ---------------------------------------------------------------- concrete documents *)
 Definition hd_ (n:String.string) (dis:bool) (pid line:nat) : hdr := mkhdr (s_ n) dis BinNums.Z0 false pid line.
 Definition w_ (v:String.string) (line:nat) : word := mkword (s_ v) QN line.
 
-(* F10: a disabled earlier definition supplies the variable:   !y = 1 ; z = $y   *)
-Theorem C12_refuted_disabled_supplies :
-  exists t, doc_ordered t = true /\
-    t = [Def (hd_ "y" true 1 1) [w_ "1" 1] []; Def (hd_ "z" false 2 2) [w_ "$y" 2] []] /\
-    resolve_id (fun _ => None) false t 2 = Ok [w_ "1" 1].
-Proof. eexists. split; [|split; [reflexivity|]]; vm_compute; reflexivity. Qed.
-Print Assumptions C12_refuted_disabled_supplies.
+(* ---------------------------------------------------------------- disabled objects (former finding F10, repaired) *)
+(* a disabled object is never a candidate ... *)
+Theorem C12_disabled_never_supplies : forall stop path l cs,
+  scan stop path l = Ok cs -> Forall (fun o => odis (ohdr o) = false /\ In o l) cs.
+Proof. exact scan_live. Qed.
+Print Assumptions C12_disabled_never_supplies.
 
+(* ... so whatever a lookup returns (at any depth of a dotted path, in any enclosing scope) is
+   not disabled ... *)
+Theorem C12_disabled_never_found : forall f stop chain path su o ch,
+  lexical_get f stop chain path su = Ok (Some (o, ch)) -> odis (ohdr o) = false.
+Proof. exact lexical_get_found_live. Qed.
+Print Assumptions C12_disabled_never_found.
+
+(* ... and a disabled object that does not end the scan (its id is absent or below stop_id)
+   might as well be absent; one whose id is >= stop_id still ends the scan, like any other *)
+Theorem C12_disabled_invisible : forall stop path l1 o l2,
+  stop <> 0 -> odis (ohdr o) = true -> stops stop o = false ->
+  scan stop path (l1 ++ o :: l2) = scan stop path (l1 ++ l2).
+Proof. exact scan_skip_disabled. Qed.
+Print Assumptions C12_disabled_invisible.
+
+(* ---------------------------------------------------------------- where the faithful model departs from the property text
+   (open finding C12-later-dotted-scope-visible) *)
 (* a LATER dotted definition (its id-less prefix scope) changes an earlier result:
      u { a = $s }              gives the environment's s
      u { a = $s } ; s.x = 1    gives "Not a definition"                                 *)
@@ -281,6 +298,14 @@ Example C12_example_mixed :
   fragments_of_word (w_ "a\$b$c.d$(.e)" 1) =
   Ok (true, true, [FLit (s_ "a\$b"); FVar (s_ "c"); FLit (s_ ".d"); FVar (s_ ".e")]).
 Proof. vm_compute. reflexivity. Qed.
+
+Example C12_example_disabled :   (* the former F10 witness  !y = 1 ; z = $y  : Undefined variable, line 2 *)
+  let t := [Def (hd_ "y" true 1 1) [w_ "1" 1] []; Def (hd_ "z" false 2 2) [w_ "$y" 2] []] in
+  doc_ordered t = true /\
+  resolve_id (fun _ => None) false t 2 = UErr k_undefined (s_ "y") 2 /\
+  resolve_id (fun _ => None) false [Def (hd_ "y" false 1 1) [w_ "1" 1] []; Def (hd_ "z" false 2 2) [w_ "$y" 2] []] 2
+    = Ok [w_ "1" 1].
+Proof. repeat split; vm_compute; reflexivity. Qed.
 
 Example C12_example_self_reference :   (* a = 1 ; a = $a ; a = $a : each sees the previous one *)
   let t := [Def (hd_ "a" false 1 1) [w_ "$a" 1] []; Def (hd_ "a" false 2 2) [w_ "$a" 2] []] in
